@@ -32,6 +32,9 @@ func concretise(r *run, o *fovc.Obligation, model string) *replayResult {
 	case pkg == "slice" && (r.prop == "C12" || r.prop == "C13"):
 		return replaySlice(r, o, model)
 	}
+	if r.prop == "C18" {
+		return replayBSM(r, o, model)
+	}
 	if f, ok := replayers[pkg]; ok {
 		return f(r, o, model)
 	}
@@ -317,4 +320,27 @@ func replaySlice(r *run, o *fovc.Obligation, model string) *replayResult {
 	}
 	res.Text = b.String()
 	return res
+}
+
+// replayBSM: build_sample_md.  The list line is read from the model (p_oneline) when the failed
+// obligation belongs to convOne; the harness then runs the real tool on real files.
+func replayBSM(r *run, o *fovc.Obligation, model string) *replayResult {
+	lineHex := ""
+	src := "no model value usable: witness search over boundary list files"
+	if o.Result == "sat" && strings.HasPrefix(o.Func, "main.convOne") {
+		vals := fovc.GetValues(o, []string{"(assert (<= (str.len p_oneline) 12))"}, []string{"p_oneline"}, 10)
+		if v, ok := vals["p_oneline"]; ok {
+			if sv, ok2 := fovc.SMTStringValue(v); ok2 {
+				lineHex = fmt.Sprintf("%x", sv)
+				src = fmt.Sprintf("small-model query: oneline=%q", sv)
+			}
+		}
+	}
+	out, _ := runOverlayTest(filepath.Join(repoDir, "cmd/build_sample_md"), filepath.Join(verifDir, "replay/bsm_replay_test.go"), "TestVerifReplay",
+		[]string{"VERIF_REPLAY_C18=1", "VERIF_REPLAY_LINE=" + lineHex}, 60*time.Second)
+	txt, rep := filterReplayLines(out)
+	if txt == "" {
+		txt = out
+	}
+	return &replayResult{Text: "input taken from: " + src + "\ncommand: (cd /repo/cmd/build_sample_md && VERIF_REPLAY_C18=1 VERIF_REPLAY_LINE=" + lineHex + " go test -overlay <zz_verif_replay_test.go => /verif/replay/bsm_replay_test.go> -vet=off -run TestVerifReplay -v .)\n" + txt, Reproduced: rep}
 }
